@@ -661,7 +661,7 @@ func oracle(r *hk.Run, p *program, o *observation) {
 	}
 	// exact: walk the script and decide, from the property text, how many attempts there must be
 	want := 0
-	var wantHooks, wantIvals []callObs
+	var wantHooks, wantIvals, wantConds []callObs
 	afterErr := 0
 	for k := 0; k < len(p.Script); k++ {
 		want = k + 1
@@ -679,10 +679,15 @@ func oracle(r *hk.Run, p *program, o *observation) {
 		}
 		need := ec != 0
 		if len(e.Conds) > 0 {
+			// some condition asks for it; they are consulted from the last registered to the
+			// first, up to the first that says yes (documented order, visible to the caller
+			// through the conditions' side effects)
 			need = false
-			for _, c := range e.Conds {
-				if condEval(c, st, ec != 0) {
+			for i := len(e.Conds) - 1; i >= 0; i-- {
+				wantConds = append(wantConds, callObs{e.Conds[i].ID, k, st, ec})
+				if condEval(e.Conds[i], st, ec != 0) {
 					need = true
+					break
 				}
 			}
 		}
@@ -707,6 +712,29 @@ func oracle(r *hk.Run, p *program, o *observation) {
 	}
 	if fmt.Sprint(o.Ivals) != fmt.Sprint(wantIvals) {
 		fail("interval:calls", "the interval function must be called once per retry with the attempt number", o.Ivals, wantIvals)
+	}
+	// which conditions are consulted, in which order
+	if fmt.Sprint(o.Conds) != fmt.Sprint(wantConds) {
+		same := len(o.Conds) == len(wantConds)
+		if same { // same calls in another order?
+			cnt := map[callObs]int{}
+			for _, c := range o.Conds {
+				cnt[c]++
+			}
+			for _, c := range wantConds {
+				cnt[c]--
+			}
+			for _, v := range cnt {
+				if v != 0 {
+					same = false
+				}
+			}
+		}
+		sg := "conds:calls"
+		if same {
+			sg = "conds:order"
+		}
+		fail(sg, "retry conditions must be consulted for every judged attempt from the last registered to the first, stopping at the first that asks for a retry", o.Conds, wantConds)
 	}
 	// conditions see the outcome of the attempt they judge
 	for _, cc := range o.Conds {
